@@ -9,7 +9,8 @@ EXTENDS Cache, Json
 CONSTANTS MaxSteps,
           DEV_NoInvalidateOnPredictionTR,   \* TrajectoryPrediction.translate_rotate keeps the cached occupancy set
           DEV_NoReindexOnNetworkTR,         \* LaneletNetwork.translate_rotate keeps the old spatial index
-          DEV_NoInvalidateCycle             \* TrafficLightCycle setters keep cycle_init_timesteps
+          DEV_NoInvalidateCycle,            \* TrafficLightCycle setters keep cycle_init_timesteps
+          DEV_MergeRebuildOnlyIfAll         \* add_lanelets_from_network rebuilds the index only if every lanelet was new
 
 VARIABLES P, occC, idx, cinit, steps, act, ans, exp
 vars == <<P, occC, idx, cinit, steps, act, ans, exp>>
@@ -63,6 +64,16 @@ UpdInit(pose, maxh) ==
     /\ occC' = NoOcc /\ UNCHANGED <<idx, cinit>> /\ Mut(A("update_initial_state", "", <<pose[1], pose[2], pose[3], maxh>>))
 AddLan == /\ 3 \notin P.net.L /\ P' = [P EXCEPT !.net.L = @ \cup {3}]
           /\ idx' = [i \in P.net.L \cup {3} |-> P.net.ring[i]] /\ UNCHANGED <<occC, cinit>> /\ Mut(A("add_lanelet", "", <<3>>))
+(* LaneletNetwork.add_lanelets_from_network(src): the loop `flag = flag and self.add_lanelet(la, rtree=False)` adds the   *)
+(* source lanelets in order and stops at the first id that is already present; then the index is rebuilt.                *)
+RECURSIVE MergeAdd(_, _)
+MergeAdd(L, src) == IF src = <<>> \/ Head(src) \in L THEN {} ELSE {Head(src)} \cup MergeAdd(L \cup {Head(src)}, Tail(src))
+MergeNet(src) ==
+    LET add  == MergeAdd(P.net.L, src)
+        net1 == [P.net EXCEPT !.L = @ \cup add, !.ring = [i \in DOMAIN @ |-> IF i \in add THEN P0.net.ring[i] ELSE @[i]]]
+    IN /\ P' = [P EXCEPT !.net = net1]
+       /\ idx' = IF DEV_MergeRebuildOnlyIfAll /\ add # Range(src) THEN idx ELSE [i \in net1.L |-> net1.ring[i]]
+       /\ UNCHANGED <<occC, cinit>> /\ Mut(A("merge_network", "", src))
 RemLan(i) == /\ i \in P.net.L /\ P' = [P EXCEPT !.net.L = @ \ {i}]
              /\ idx' = [j \in P.net.L \ {i} |-> P.net.ring[j]] /\ UNCHANGED <<occC, cinit>> /\ Mut(A("remove_lanelet", "", <<i>>))
 Inval == IF DEV_NoInvalidateCycle THEN cinit ELSE NoCyc
@@ -92,6 +103,7 @@ Next == /\ steps < MaxSteps
            \/ UpdPred(<<>>) \/ SetPShape(<<1, 1>>)
            \/ \E maxh \in {1, 2} : UpdInit(<<3, 3, 1>>, maxh)
            \/ AddLan \/ \E i \in {1, 2} : RemLan(i)
+           \/ \E src \in {<<3>>, <<3, 1>>, <<1, 3>>} : MergeNet(src)
            \/ \E c \in Cycles2 : SetCycle(c)
            \/ SetOff(2) \/ SetDur(3)
            \/ \E t \in QTimes : QOcc(t) \/ QState(t) \/ QLight(t)
